@@ -258,7 +258,14 @@ def history(ops):
     conn = FakeConnection()
     p = rpc.Proxy(service_url=URL, connection=conn)
     evs = []
-    for c, reply, _hint in ops:
+    for i, (c, reply, _hint) in enumerate(ops):
+        # closing the connection between two calls is legal at any time and starts nothing anew: in
+        # particular request ids keep increasing over the life of the proxy object
+        if i and (i + len(ops)) % 3 == 0:
+            try:
+                p.close()
+            except Exception:  # noqa
+                pass
         script(conn, reply)
         n = len(conn.sent)
         out = outcome(p, c)
